@@ -120,7 +120,7 @@ def run(ctx):
                     got = vr
             if abs(got - exact) > bound:
                 kr.violation(be, f"{o}: physical magnitude of the result is not the exact {o} of the operands' magnitudes within rounding", op, r,
-                             f"|{float(got)} - {float(exact)}| <= {float(bound)}", error=float(abs(got - exact)))
+                             f"|{kc.ff(got)} - {kc.ff(exact)}| <= {kc.ff(bound)}", error=kc.ff(abs(got - exact)))
     return kr.result("every type with reference unit x ALL ordered unit pairs x amount pairs: a+b, a-b, a/b compared (i) exactly with the amount type's "
                      "own operation applied to the left amount and the right operand as converted by the implementation (unit = left unit), and (ii) with the "
                      "exact rational sum/difference/ratio of the magnitudes within the composed rounding bound; non-trivial = distinct (back-end, op, type, unit pair)",
